@@ -1,6 +1,1460 @@
-//! C10 -- (stub; see DESIGN.md section 5)
-use crate::util::Args;
+//! C10: the TFM and PL readers are total; PL->TFM output is a readable TFM.
+//!
+//! Two recorders, no oracle: every expected value comes from TLC (specs/TfmHeader.tla,
+//! specs/CodecProtocol.tla).
+//!
+//! * `c10-header` (binding F): one call event per file -- the file as (len, first 24 bytes) and
+//!   what `tfm::algorithms::tfm_to_pl` returned (kind, TFtoPL message text, junk warning).
+//!   Files: every value of each of the twelve 16-bit preamble words against short base files and
+//!   corpus fonts, all short lengths, compensated and paired overrides.
+//! * `c10-pipe` (binding T): runs of the two converters exactly as the tfm-bin tools drive them
+//!   (conversion plus rendering of every warning) on truncated / mutated corpus fonts and on
+//!   token-level mutations of corpus property lists and synthesised property lists; every PL->TFM
+//!   output is handed back to the TFM reader.  A panic is an event; a hang or a hard crash
+//!   (stack overflow, abort) ends the process after the pending call has been flushed, so the
+//!   driver attributes it to one input and resumes behind it.
+use crate::util::{Args, Out, Rng};
+use serde_json::{json, Value};
+use std::cell::RefCell;
+use std::sync::atomic::{AtomicU64, Ordering};
+use std::sync::{Arc, Mutex};
 
-pub fn dispatch(_cmd: &str, _args: &Args) -> Option<i32> {
+pub fn dispatch(cmd: &str, args: &Args) -> Option<i32> {
+    Some(match cmd {
+        "c10-header" => header(args),
+        "c10-pipe" => pipe(args),
+        "c10-file" => one_file(args),
+        _ => return None,
+    })
+}
+
+// ------------------------------------------------------------------------------------------
+// panics as data, with the location (file, line) so that the driver can key a finding by the
+// source text at the panic site instead of by a line number
+// ------------------------------------------------------------------------------------------
+thread_local! {
+    static LAST: RefCell<Option<(String, u32, String)>> = const { RefCell::new(None) };
+}
+
+fn install_hook() {
+    std::panic::set_hook(Box::new(|info| {
+        let (file, line) = info
+            .location()
+            .map(|l| (l.file().to_string(), l.line()))
+            .unwrap_or_default();
+        let msg = if let Some(s) = info.payload().downcast_ref::<&str>() {
+            s.to_string()
+        } else if let Some(s) = info.payload().downcast_ref::<String>() {
+            s.clone()
+        } else {
+            "<non-string panic payload>".to_string()
+        };
+        LAST.with(|p| *p.borrow_mut() = Some((file, line, msg)));
+    }));
+}
+
+fn catch<T>(f: impl FnOnce() -> T) -> Result<T, (String, u32, String)> {
+    LAST.with(|p| *p.borrow_mut() = None);
+    match std::panic::catch_unwind(std::panic::AssertUnwindSafe(f)) {
+        Ok(v) => Ok(v),
+        Err(_) => Err(LAST
+            .with(|p| p.borrow_mut().take())
+            .unwrap_or_else(|| ("?".into(), 0, "?".into()))),
+    }
+}
+
+// ------------------------------------------------------------------------------------------
+// the two converters, driven as crates/tfm-bin/src/{tftopl,pltotf}.rs drive them
+// ------------------------------------------------------------------------------------------
+
+/// crates/tfm-bin/src/shared.rs, CharcodeFormat::to_display_format
+fn display_format(mode: u8, scheme: &Option<String>) -> tfm::pl::CharDisplayFormat {
+    match mode % 3 {
+        0 => {
+            let s = match scheme {
+                None => String::new(),
+                Some(s) => s.to_uppercase(),
+            };
+            if s.starts_with("TEX MATH SY") || s.starts_with("TEX MATH EX") {
+                tfm::pl::CharDisplayFormat::Octal
+            } else {
+                tfm::pl::CharDisplayFormat::Default
+            }
+        }
+        1 => tfm::pl::CharDisplayFormat::Ascii,
+        _ => tfm::pl::CharDisplayFormat::Octal,
+    }
+}
+
+struct TfmOutcome {
+    kind: String,
+    msg: String,
+    junk: bool,
+    nwarn: usize,
+    pl_len: usize,
+}
+
+/// tftopl: bytes -> property list text or a documented error, plus rendered messages.
+fn run_tfm_to_pl(bytes: &[u8], mode: u8) -> TfmOutcome {
+    let output = match tfm::algorithms::tfm_to_pl(bytes, 3, &|pl_file| {
+        display_format(mode, &pl_file.header.character_coding_scheme)
+    }) {
+        Ok(o) => o,
+        Err(_) => {
+            // the tool unwraps this; it is not one of the documented outcomes
+            return TfmOutcome {
+                kind: "FmtError".into(),
+                msg: String::new(),
+                junk: false,
+                nwarn: 0,
+                pl_len: 0,
+            };
+        }
+    };
+    let mut junk = false;
+    let mut rendered = 0usize;
+    for m in &output.error_messages {
+        if let tfm::algorithms::TfmToPlErrorMessage::DeserializationWarning(
+            tfm::DeserializationWarning::InternalFileLengthIsSmall(_, _),
+        ) = m
+        {
+            junk = true;
+        }
+        rendered += m.tftopl_message().len();
+    }
+    let _ = rendered;
+    match &output.pl_data {
+        Ok(s) => TfmOutcome {
+            kind: "Ok".into(),
+            msg: String::new(),
+            junk,
+            nwarn: output.error_messages.len(),
+            pl_len: s.len(),
+        },
+        Err(e) => {
+            let dbg = format!("{e:?}");
+            let kind: String = dbg
+                .chars()
+                .take_while(|c| c.is_ascii_alphanumeric())
+                .collect();
+            let text = e.tftopl_message();
+            let _ = e.tftopl_section();
+            TfmOutcome {
+                kind,
+                msg: text.lines().next().unwrap_or("").to_string(),
+                junk,
+                nwarn: output.error_messages.len(),
+                pl_len: 0,
+            }
+        }
+    }
+}
+
+/// pltotf: text -> bytes, plus rendered messages.
+fn run_pl_to_tfm(text: &str) -> (Vec<u8>, usize) {
+    let (bytes, warnings) = tfm::algorithms::pl_to_tfm(text);
+    let mut rendered = 0usize;
+    for w in &warnings {
+        rendered += w.pltotf_message(text).len();
+    }
+    let _ = rendered;
+    (bytes, warnings.len())
+}
+
+fn hdr_of(bytes: &[u8]) -> Vec<u8> {
+    bytes[..bytes.len().min(24)].to_vec()
+}
+
+// ------------------------------------------------------------------------------------------
+// corpus
+// ------------------------------------------------------------------------------------------
+struct Corpus {
+    tfms: Vec<(String, Vec<u8>)>,
+    pls: Vec<(String, String)>,
+}
+
+fn walk(dir: &std::path::Path, out: &mut Vec<std::path::PathBuf>) {
+    let mut entries: Vec<_> = match std::fs::read_dir(dir) {
+        Ok(rd) => rd.filter_map(|e| e.ok()).map(|e| e.path()).collect(),
+        Err(_) => return,
+    };
+    entries.sort();
+    for p in entries {
+        if p.is_dir() {
+            walk(&p, out);
+        } else {
+            out.push(p);
+        }
+    }
+}
+
+fn load_corpus(root: &str) -> Corpus {
+    let rootp = std::path::Path::new(root);
+    let mut files = vec![];
+    walk(rootp, &mut files);
+    let mut c = Corpus { tfms: vec![], pls: vec![] };
+    for p in files {
+        let rel = p.strip_prefix(rootp).unwrap().to_string_lossy().to_string();
+        match p.extension().and_then(|e| e.to_str()) {
+            Some("tfm") => {
+                if let Ok(b) = std::fs::read(&p) {
+                    c.tfms.push((rel, b));
+                }
+            }
+            Some("pl") | Some("plst") => {
+                // the tool reads the file with read_to_string: only UTF-8 text reaches the library
+                if let Ok(s) = std::fs::read_to_string(&p) {
+                    c.pls.push((rel, s));
+                }
+            }
+            _ => {}
+        }
+    }
+    if c.tfms.is_empty() || c.pls.is_empty() {
+        eprintln!("no corpus under {root}");
+        std::process::exit(2);
+    }
+    c
+}
+
+// ------------------------------------------------------------------------------------------
+// c10-header (binding F)
+// ------------------------------------------------------------------------------------------
+fn set_word(b: &mut [u8], k: usize, v: u16) {
+    b[2 * k] = (v >> 8) as u8;
+    b[2 * k + 1] = (v & 255) as u8;
+}
+fn get_word(b: &[u8], k: usize) -> u16 {
+    ((b[2 * k] as u16) << 8) | b[2 * k + 1] as u16
+}
+fn words_to_bytes(w: &[u16]) -> Vec<u8> {
+    w.iter().flat_map(|x| x.to_be_bytes()).collect()
+}
+
+const BOUNDARY: &[u16] = &[
+    0, 1, 2, 3, 4, 5, 6, 7, 8, 11, 12, 13, 14, 17, 18, 19, 63, 64, 127, 128, 129, 254, 255, 256, 257, 258, 511,
+    512, 1023, 1024, 16383, 16384, 32510, 32511, 32765, 32766, 32767, 32768, 32769, 49152, 65534, 65535,
+];
+
+fn header_event(out: &mut Out, bytes: &[u8], mode: u8) {
+    let r = catch(|| run_tfm_to_pl(bytes, mode));
+    let b = hdr_of(bytes);
+    let v = match r {
+        Ok(o) => json!({"len": bytes.len(), "b": b, "kind": o.kind, "msg": o.msg, "junk": o.junk}),
+        Err((file, line, msg)) => {
+            json!({"len": bytes.len(), "b": b, "kind": "panic", "msg": msg, "junk": false, "file": file, "line": line})
+        }
+    };
+    out.line(&v);
+}
+
+fn header(args: &Args) -> i32 {
+    install_hook();
+    if let Some(f) = args.str("file") {
+        // replay of one input
+        let bytes = std::fs::read(f).expect("read input file");
+        let mut out = Out::new(args.str("out"));
+        header_event(&mut out, &bytes, args.num("mode", 0));
+        out.flush();
+        return 0;
+    }
+    let corpus = load_corpus(args.req("corpus"));
+    let seed: u64 = args.num("seed", 1);
+    let thorough = args.str("tier") == Some("thorough");
+    let per_word: usize = args.num("per_word", 480);
+    let pairs: usize = args.num("pairs", if thorough { 200_000 } else { 5000 });
+    let mut out = Out::new(args.str("out"));
+    let mut rng = Rng::new(seed ^ 0xC10);
+
+    // base files
+    let mut bases: Vec<(String, Vec<u8>)> = vec![
+        ("b16".into(), words_to_bytes(&[4, 2, 1, 0, 1, 1, 1, 1])),
+        ("b24".into(), words_to_bytes(&[6, 2, 1, 0, 1, 1, 1, 1, 0, 0, 0, 0])),
+        ("b28".into(), words_to_bytes(&[7, 2, 1, 0, 1, 1, 1, 1, 0, 0, 0, 0, 0, 0])),
+        ("min48".into(), {
+            let mut v = words_to_bytes(&[12, 2, 1, 0, 1, 1, 1, 1, 0, 0, 0, 0]);
+            v.resize(48, 0);
+            v
+        }),
+    ];
+    // the smallest corpus font that the reader accepts, and cmr10 as a real font
+    let mut smallest: Option<&(String, Vec<u8>)> = None;
+    for t in &corpus.tfms {
+        let ok = matches!(catch(|| run_tfm_to_pl(&t.1, 0)), Ok(ref o) if o.kind == "Ok");
+        if ok && smallest.map(|s| t.1.len() < s.1.len()).unwrap_or(true) {
+            smallest = Some(t);
+        }
+    }
+    if let Some(s) = smallest {
+        bases.push((format!("corpus:{}", s.0), s.1.clone()));
+    }
+    if let Some(t) = corpus.tfms.iter().find(|t| t.0.ends_with("cmr10.tfm")) {
+        bases.push((format!("corpus:{}", t.0), t.1.clone()));
+    }
+
+    if args.str("bases").is_some() {
+        println!("{}", bases.len());
+        return 0;
+    }
+    // base=<i> restricts the run to one base file, base=pairs to the seeded multi-word overrides
+    let only: Option<usize> = args.str("base").and_then(|s| s.parse().ok());
+    let pairs_only = args.str("base") == Some("pairs");
+    let mut mode = 0u8;
+    for (bi, (name, base)) in bases.iter().enumerate() {
+        if pairs_only || only.map(|o| o != bi).unwrap_or(false) {
+            continue;
+        }
+        // the real font beyond the smallest one is swept with the seeded subset in both tiers
+        let thorough = thorough && !name.ends_with("cmr10.tfm");
+        // every short length (truncation) and a few extensions
+        let maxlen = base.len().min(64);
+        for n in 0..=maxlen {
+            header_event(&mut out, &base[..n], mode);
+        }
+        for extra in 1..=8usize {
+            let mut v = base.clone();
+            v.resize(base.len() + extra, 0xAB);
+            header_event(&mut out, &v, mode);
+        }
+        // every (or a seeded subset of the) value of each word
+        for k in 0..12usize {
+            if 2 * k + 2 > base.len() {
+                continue;
+            }
+            let cur = get_word(base, k);
+            let mut vals: Vec<u16> = vec![];
+            if thorough {
+                vals.extend(0..=u16::MAX);
+            } else {
+                vals.extend_from_slice(BOUNDARY);
+                for d in -3i32..=3 {
+                    vals.push((cur as i32 + d).rem_euclid(65536) as u16);
+                }
+                for _ in 0..per_word {
+                    // half of the random values are small, where the interesting boundaries are
+                    let v = if rng.chance(1, 2) { rng.below(600) } else { rng.below(65536) };
+                    vals.push(v as u16);
+                }
+            }
+            for v in vals {
+                let mut f = base.clone();
+                set_word(&mut f, k, v);
+                mode = mode.wrapping_add(1);
+                header_event(&mut out, &f, mode);
+            }
+        }
+        if base.len() < 24 {
+            continue;
+        }
+        // every pair of words against every pair of small boundary values (the order in which two
+        // failing tests are reported), on the two short complete bases
+        if name == "b24" || name == "min48" {
+            const SMALL: &[u16] = &[0, 1, 2, 255, 256, 32767, 32768];
+            for i in 0..12usize {
+                for j in i + 1..12 {
+                    for &vi in SMALL {
+                        for &vj in SMALL {
+                            let mut f = base.clone();
+                            set_word(&mut f, i, vi);
+                            set_word(&mut f, j, vj);
+                            header_event(&mut out, &f, mode);
+                        }
+                    }
+                }
+            }
+        }
+        // compensated overrides: word k changes by d and another size word by -d, so that the
+        // sizes still add up and the reader gets past the preamble with shifted tables
+        for k in [1usize, 4, 5, 6, 7, 8, 9, 10, 11] {
+            for j in [1usize, 4, 5, 6, 7, 8, 9, 10, 11] {
+                if j == k {
+                    continue;
+                }
+                for d in [-3i32, -2, -1, 1, 2, 3, 255, 256] {
+                    let a = get_word(base, k) as i32 + d;
+                    let c = get_word(base, j) as i32 - d;
+                    if !(0..=65535).contains(&a) || !(0..=65535).contains(&c) {
+                        continue;
+                    }
+                    let mut f = base.clone();
+                    set_word(&mut f, k, a as u16);
+                    set_word(&mut f, j, c as u16);
+                    header_event(&mut out, &f, mode);
+                }
+            }
+        }
+        // bc/ec moved together (the range keeps its size) and the empty-range encodings
+        for (bc, ec) in [(0u16, 0u16), (255, 255), (256, 255), (256, 256), (257, 256), (301, 300), (1, 0), (32767, 32766), (32767, 32767), (32768, 32767), (0, 65535), (2, 0)] {
+            let size = get_word(base, 3) as i32 - get_word(base, 2) as i32 + 1;
+            for keep in [false, true] {
+                let mut f = base.clone();
+                set_word(&mut f, 2, bc);
+                let e = if keep { (bc as i32 + size - 1).rem_euclid(65536) as u16 } else { ec };
+                set_word(&mut f, 3, e);
+                header_event(&mut out, &f, mode);
+            }
+        }
+        // ne at its limit with the sum kept right by lf (the file is then too short or has junk)
+        for ne in [255u16, 256, 257] {
+            for fix_lf in [false, true] {
+                let mut f = base.clone();
+                let d = ne as i32 - get_word(base, 10) as i32;
+                set_word(&mut f, 10, ne);
+                if fix_lf {
+                    let lf = get_word(base, 0) as i32 + d;
+                    if !(0..=32767).contains(&lf) {
+                        continue;
+                    }
+                    set_word(&mut f, 0, lf as u16);
+                    f.resize(4 * lf as usize, 0);
+                }
+                header_event(&mut out, &f, mode);
+            }
+        }
+    }
+    // seeded pairs / triples of boundary values on a base, with lf sometimes repaired so that
+    // the sum test is reached with large sizes (i16 overflow region)
+    let pairs = if only.is_some() { 0 } else { pairs };
+    for _ in 0..pairs {
+        let base = &bases[3 + rng.below((bases.len() - 3) as u64) as usize].1;
+        let mut f = base[..base.len().min(256)].to_vec();
+        let n = 2 + rng.below(3) as usize;
+        for _ in 0..n {
+            let k = rng.below(12) as usize;
+            let v = if rng.chance(2, 3) { *rng.pick(BOUNDARY) } else { rng.below(65536) as u16 };
+            set_word(&mut f, k, v);
+        }
+        match rng.below(4) {
+            0 => {
+                // make lf consistent when the exact sum fits 16 bits
+                let w: Vec<i64> = (0..12).map(|k| get_word(&f, k) as i64).collect();
+                let s = 6 + w[1] + (w[3] - w[2] + 1) + w[4] + w[5] + w[6] + w[7] + w[8] + w[9] + w[10] + w[11];
+                if (0..=65535).contains(&s) {
+                    set_word(&mut f, 0, s as u16);
+                }
+            }
+            1 => {
+                // the sum modulo 2^16 (what a wrapped i16 addition would compare with)
+                let w: Vec<i64> = (0..12).map(|k| get_word(&f, k) as i64).collect();
+                let s = 6 + w[1] + (w[3] - w[2] + 1) + w[4] + w[5] + w[6] + w[7] + w[8] + w[9] + w[10] + w[11];
+                set_word(&mut f, 0, s.rem_euclid(65536) as u16);
+            }
+            _ => {}
+        }
+        // give the file the length it declares (capped) in half of the cases
+        if rng.chance(1, 2) {
+            let lf = get_word(&f, 0) as usize;
+            if lf <= 32767 {
+                f.resize((4 * lf).min(140_000), 0);
+            }
+        }
+        header_event(&mut out, &f, mode);
+    }
+    out.flush();
+    0
+}
+
+// ------------------------------------------------------------------------------------------
+// c10-pipe (binding T): job plan
+// ------------------------------------------------------------------------------------------
+#[derive(Clone, Debug)]
+enum JobKind {
+    /// (corpus tfm index, class, parameter)
+    Tfm(usize, &'static str, u64),
+    /// (corpus pl index, class, parameter)
+    Pl(usize, &'static str, u64),
+    /// synthesised property list
+    Synth(u64),
+}
+
+fn plan(corpus: &Corpus, thorough: bool, seed: u64, scale: f64) -> Vec<JobKind> {
+    let mut jobs = vec![];
+    let mut rng = Rng::new(seed ^ 0xC10_9192);
+    for (i, (_, b)) in corpus.tfms.iter().enumerate() {
+        jobs.push(JobKind::Tfm(i, "identity", 0));
+        // truncations
+        let n = b.len();
+        if thorough {
+            for len in 0..n {
+                jobs.push(JobKind::Tfm(i, "trunc", len as u64));
+            }
+        } else {
+            for len in 0..n.min(40) {
+                jobs.push(JobKind::Tfm(i, "trunc", len as u64));
+            }
+            for _ in 0..((12.0 * scale) as usize) {
+                jobs.push(JobKind::Tfm(i, "trunc", rng.below(n as u64)));
+            }
+        }
+        // the other classes: counts shrink with the size of the font
+        let weight = if n > 60_000 { 0.15 } else if n > 8_000 { 0.5 } else { 1.0 };
+        let base = if thorough { 700.0 } else { 46.0 } * scale * weight;
+        for (class, share) in [
+            ("trunc_fix", 0.5),
+            ("trunc_consistent", 1.0),
+            ("bytes", 2.0),
+            ("section", 2.0),
+            ("index", 2.0),
+            ("shift", 1.0),
+            ("word", 0.7),
+            ("extend", 0.2),
+            ("mix", 1.0),
+        ] {
+            for _ in 0..((base * share) as usize).max(1) {
+                jobs.push(JobKind::Tfm(i, class, rng.next()));
+            }
+        }
+    }
+    for (i, (_, s)) in corpus.pls.iter().enumerate() {
+        jobs.push(JobKind::Pl(i, "identity", 0));
+        let n = s.len();
+        let weight = if n > 400_000 { 0.04 } else if n > 100_000 { 0.15 } else if n > 30_000 { 0.5 } else { 1.0 };
+        let base = if thorough { 150.0 } else { 70.0 } * scale * weight;
+        for (class, share) in [
+            ("token", 3.0),
+            ("paren", 1.0),
+            ("number", 1.5),
+            ("label", 1.0),
+            ("nest", 0.3),
+            ("char", 0.5),
+            ("dup", 0.4),
+            ("trunc", 0.6),
+            ("mix", 1.5),
+        ] {
+            for _ in 0..((base * share) as usize).max(1) {
+                jobs.push(JobKind::Pl(i, class, rng.next()));
+            }
+        }
+    }
+    let nsynth = ((if thorough { 25_000.0 } else { 2500.0 }) * scale) as usize;
+    for _ in 0..nsynth {
+        jobs.push(JobKind::Synth(rng.next()));
+    }
+    jobs
+}
+
+// ------------------------------------------------------------------------------------------
+// TFM mutations
+// ------------------------------------------------------------------------------------------
+const EDGE_BYTES: &[u8] = &[0, 1, 2, 3, 4, 15, 16, 63, 64, 127, 128, 129, 192, 254, 255];
+
+/// Byte offsets of the eleven parts of a font whose preamble is consistent (else None).
+fn sections(b: &[u8]) -> Option<Vec<(usize, usize)>> {
+    if b.len() < 24 {
+        return None;
+    }
+    let w: Vec<usize> = (0..12).map(|k| get_word(b, k) as usize).collect();
+    if w[2] > w[3] + 1 {
+        return None;
+    }
+    let sizes = [6, w[1], w[3] + 1 - w[2], w[4], w[5], w[6], w[7], w[8], w[9], w[10], w[11]];
+    let mut r = vec![];
+    let mut at = 0usize;
+    for s in sizes {
+        r.push((at, at + 4 * s));
+        at += 4 * s;
+    }
+    if at > b.len() {
+        return None;
+    }
+    Some(r)
+}
+
+fn mutate_bytes(b: &mut [u8], rng: &mut Rng, n: usize, lo: usize) {
+    if b.len() <= lo {
+        return;
+    }
+    for _ in 0..n {
+        let i = lo + rng.below((b.len() - lo) as u64) as usize;
+        b[i] = match rng.below(4) {
+            0 => *rng.pick(EDGE_BYTES),
+            1 => b[i] ^ (1 << rng.below(8)),
+            2 => b[i].wrapping_add(1),
+            _ => rng.below(256) as u8,
+        };
+    }
+}
+
+fn mutate_tfm(src: &[u8], class: &str, param: u64) -> Vec<u8> {
+    let mut rng = Rng::new(param);
+    let mut b = src.to_vec();
+    match class {
+        "identity" => {}
+        "trunc" => b.truncate(param as usize),
+        "trunc_fix" => {
+            // cut at a word boundary and declare the new length
+            let words = rng.below((b.len() / 4 + 1) as u64) as usize;
+            b.truncate(4 * words);
+            if b.len() >= 2 && words <= 32767 {
+                set_word(&mut b, 0, words as u16);
+            }
+        }
+        "trunc_consistent" => {
+            // cut at a word boundary and shrink the trailing tables so that the sizes add up
+            if let Some(sec) = sections(&b) {
+                let total = sec[10].1 / 4;
+                if total > 12 {
+                    let mut cut = 1 + rng.below((total - 7) as u64) as usize;
+                    cut = cut.min(total - 7);
+                    let new_total = total - cut;
+                    let mut remaining = cut;
+                    for k in (1..12usize).rev() {
+                        if k == 2 || k == 3 {
+                            // shrink the character range from the top
+                            let bc = get_word(&b, 2) as usize;
+                            let ec = get_word(&b, 3) as usize;
+                            if k == 3 && ec + 1 > bc {
+                                let have = ec + 1 - bc;
+                                let take = have.min(remaining);
+                                let nec = ec + 1 - take;
+                                if nec == 0 {
+                                    set_word(&mut b, 2, 1);
+                                    set_word(&mut b, 3, 0);
+                                } else {
+                                    set_word(&mut b, 3, (nec - 1) as u16);
+                                }
+                                remaining -= take;
+                            }
+                            continue;
+                        }
+                        let min = match k {
+                            1 => 2,
+                            4..=7 => 1,
+                            _ => 0,
+                        };
+                        let have = get_word(&b, k) as usize;
+                        let take = have.saturating_sub(min).min(remaining);
+                        set_word(&mut b, k, (have - take) as u16);
+                        remaining -= take;
+                        if remaining == 0 {
+                            break;
+                        }
+                    }
+                    if remaining == 0 {
+                        set_word(&mut b, 0, new_total as u16);
+                        // remove the words from the end of the file: the tables slide
+                        b.truncate(4 * new_total);
+                    }
+                }
+            }
+        }
+        "bytes" => {
+            let n = 1 + rng.below(6) as usize;
+            mutate_bytes(&mut b, &mut rng, n, 24);
+        }
+        "section" => {
+            // choose a table uniformly (not a byte uniformly), then damage a few bytes in it
+            if let Some(sec) = sections(&b) {
+                let nonempty: Vec<_> = sec.iter().skip(1).filter(|(a, z)| z > a).collect();
+                if !nonempty.is_empty() {
+                    let (a, z) = **rng.pick(&nonempty);
+                    for _ in 0..1 + rng.below(8) {
+                        let i = a + rng.below((z - a) as u64) as usize;
+                        b[i] = if rng.chance(1, 2) { *rng.pick(EDGE_BYTES) } else { rng.below(256) as u8 };
+                    }
+                }
+            } else {
+                mutate_bytes(&mut b, &mut rng, 3, 0);
+            }
+        }
+        "index" => {
+            // put an index (into the width/height/depth/italic/lig-kern/kern/exten tables, or a
+            // character code) exactly at, just below or just above the end of what it indexes
+            if let Some(sec) = sections(&b) {
+                let w: Vec<usize> = (0..12).map(|k| get_word(&b, k) as usize).collect();
+                let (bc, ec, nw, nh, nd, ni, nl, nk, ne) = (w[2], w[3], w[4], w[5], w[6], w[7], w[8], w[9], w[10]);
+                let around = |rng: &mut Rng, n: usize, max: usize| -> usize {
+                    let v = match rng.below(5) {
+                        0 => n.saturating_sub(1),
+                        1 => n,
+                        2 => n + 1,
+                        3 => max,
+                        _ => 0,
+                    };
+                    v.min(max)
+                };
+                for _ in 0..1 + rng.below(3) {
+                    let nchars = (ec + 1).saturating_sub(bc);
+                    match rng.below(if nl > 0 { 8 } else { 3 }) {
+                        0 | 1 if nchars > 0 => {
+                            let at = sec[2].0 + 4 * rng.below(nchars as u64) as usize;
+                            match rng.below(7) {
+                                0 => b[at] = around(&mut rng, nw, 255) as u8,
+                                1 => b[at + 1] = ((around(&mut rng, nh, 15) as u8) << 4) | (b[at + 1] & 15),
+                                2 => b[at + 1] = (b[at + 1] & 0xF0) | around(&mut rng, nd, 15) as u8,
+                                3 => b[at + 2] = ((around(&mut rng, ni, 63) as u8) << 2) | (b[at + 2] & 3),
+                                4 => {
+                                    b[at + 2] = (b[at + 2] & 0xFC) | 1;
+                                    b[at + 3] = around(&mut rng, nl, 255) as u8;
+                                }
+                                5 => {
+                                    b[at + 2] = (b[at + 2] & 0xFC) | 3;
+                                    b[at + 3] = around(&mut rng, ne, 255) as u8;
+                                }
+                                _ => {
+                                    b[at + 2] = (b[at + 2] & 0xFC) | 2;
+                                    b[at + 3] = *rng.pick(&[bc.saturating_sub(1), bc, ec, (ec + 1).min(255), 0, 255]) as u8;
+                                }
+                            }
+                            if b[at] == 0 && rng.chance(1, 2) {
+                                b[at] = 1; // make the character exist so that its tag is looked at
+                            }
+                        }
+                        2 if ne > 0 => {
+                            let at = sec[9].0 + 4 * rng.below(ne as u64) as usize + rng.below(4) as usize;
+                            b[at] = *rng.pick(&[bc.saturating_sub(1), bc, ec, (ec + 1).min(255), 0, 255]) as u8;
+                        }
+                        _ if nl > 0 => {
+                            // a lig/kern instruction: the first, the last or any other
+                            let i = match rng.below(3) {
+                                0 => 0,
+                                1 => nl - 1,
+                                _ => rng.below(nl as u64) as usize,
+                            };
+                            let at = sec[7].0 + 4 * i;
+                            let target = |v: usize| ((v >> 8) as u8, (v & 255) as u8);
+                            match rng.below(5) {
+                                0 => {
+                                    // boundary-character / redirect instruction pointing around nl
+                                    let (h, l) = target(around(&mut rng, nl, 65535));
+                                    b[at] = *rng.pick(&[255u8, 254, 129]);
+                                    b[at + 2] = h;
+                                    b[at + 3] = l;
+                                }
+                                1 => {
+                                    // kern step with an index around nk
+                                    let (h, l) = target(around(&mut rng, nk, 32767));
+                                    b[at] = *rng.pick(&[0u8, 128]);
+                                    b[at + 2] = 128u8.saturating_add(h.min(127));
+                                    b[at + 3] = l;
+                                }
+                                2 => {
+                                    // skip that lands around the end of the table
+                                    let left = nl - 1 - i;
+                                    b[at] = *rng.pick(&[left.saturating_sub(1), left, left + 1, 127, 128]).min(&255) as u8;
+                                }
+                                3 => {
+                                    // ligature step producing / expecting a character around the range
+                                    b[at + 1] = *rng.pick(&[bc.saturating_sub(1), bc, ec, (ec + 1).min(255)]) as u8;
+                                    b[at + 2] = rng.below(12) as u8;
+                                    b[at + 3] = *rng.pick(&[bc.saturating_sub(1), bc, ec, (ec + 1).min(255)]) as u8;
+                                }
+                                _ => {
+                                    b[at] = *rng.pick(EDGE_BYTES);
+                                    b[at + 2] = *rng.pick(EDGE_BYTES);
+                                }
+                            }
+                        }
+                        _ => {}
+                    }
+                }
+            } else {
+                mutate_bytes(&mut b, &mut rng, 2, 24);
+            }
+        }
+        "shift" => {
+            // move a table boundary: one size +d, another -d (the sum is unchanged)
+            if b.len() >= 24 {
+                let ks = [1usize, 4, 5, 6, 7, 8, 9, 10, 11];
+                let k = *rng.pick(&ks);
+                let j = *rng.pick(&ks);
+                let span = if rng.chance(1, 4) { 300 } else { 4 };
+                let d = 1 + rng.below(span) as i32;
+                let a = get_word(&b, k) as i32 + d;
+                let c = get_word(&b, j) as i32 - d;
+                if k != j && a <= 32767 && c >= 0 {
+                    set_word(&mut b, k, a as u16);
+                    set_word(&mut b, j, c as u16);
+                }
+                if rng.chance(1, 3) {
+                    // and move bc..ec as a block
+                    let bc = get_word(&b, 2) as i32;
+                    let ec = get_word(&b, 3) as i32;
+                    let d = rng.range(-(bc.min(40)) as i64, (255 - ec).clamp(0, 40) as i64) as i32;
+                    if ec >= bc && ec + d <= 255 && bc + d >= 0 {
+                        set_word(&mut b, 2, (bc + d) as u16);
+                        set_word(&mut b, 3, (ec + d) as u16);
+                    }
+                }
+            }
+        }
+        "word" => {
+            if b.len() >= 24 {
+                let k = rng.below(12) as usize;
+                let v = if rng.chance(2, 3) { *rng.pick(BOUNDARY) } else { rng.below(65536) as u16 };
+                set_word(&mut b, k, v);
+            }
+        }
+        "extend" => {
+            let n = 1 + rng.below(9) as usize;
+            for _ in 0..n {
+                b.push(rng.below(256) as u8);
+            }
+        }
+        _ => {
+            // mix: two or three of the above
+            for _ in 0..2 + rng.below(2) {
+                let c = *rng.pick(&["bytes", "section", "index", "shift", "trunc_consistent", "extend", "index"]);
+                b = mutate_tfm(&b, c, rng.next());
+            }
+        }
+    }
+    b
+}
+
+// ------------------------------------------------------------------------------------------
+// PL mutations (token level)
+// ------------------------------------------------------------------------------------------
+fn tokenize(s: &str) -> Vec<String> {
+    let mut toks = vec![];
+    let mut cur = String::new();
+    let mut cur_ws: Option<bool> = None;
+    for c in s.chars() {
+        if c == '(' || c == ')' {
+            if !cur.is_empty() {
+                toks.push(std::mem::take(&mut cur));
+            }
+            cur_ws = None;
+            toks.push(c.to_string());
+            continue;
+        }
+        let ws = c.is_whitespace();
+        if cur_ws != Some(ws) && !cur.is_empty() {
+            toks.push(std::mem::take(&mut cur));
+        }
+        cur_ws = Some(ws);
+        cur.push(c);
+    }
+    if !cur.is_empty() {
+        toks.push(cur);
+    }
+    toks
+}
+
+fn is_ws(t: &str) -> bool {
+    t.chars().all(|c| c.is_whitespace())
+}
+
+const VOCAB: &[&str] = &[
+    "CHECKSUM", "DESIGNSIZE", "DESIGNUNITS", "CODINGSCHEME", "FAMILY", "FACE", "SEVENBITSAFEFLAG", "HEADER",
+    "FONTDIMEN", "LIGTABLE", "BOUNDARYCHAR", "CHARACTER", "PARAMETER", "SLANT", "SPACE", "STRETCH", "SHRINK",
+    "XHEIGHT", "QUAD", "EXTRASPACE", "NUM1", "NUM2", "NUM3", "DENOM1", "DENOM2", "SUP1", "SUP2", "SUP3", "SUB1",
+    "SUB2", "SUPDROP", "SUBDROP", "DELIM1", "DELIM2", "AXISHEIGHT", "DEFAULTRULETHICKNESS", "BIGOPSPACING1",
+    "BIGOPSPACING2", "BIGOPSPACING3", "BIGOPSPACING4", "BIGOPSPACING5", "LABEL", "STOP", "SKIP", "KRN", "LIG",
+    "/LIG", "/LIG>", "LIG/", "LIG/>", "/LIG/", "/LIG/>", "/LIG/>>", "CHARWD", "CHARHT", "CHARDP", "CHARIC",
+    "NEXTLARGER", "VARCHAR", "TOP", "MID", "BOT", "REP", "COMMENT", "", "checksum", "LIGTABLEX",
+];
+
+const NUMBERS: &[&str] = &[
+    "D 0", "D 1", "D 17", "D 18", "D 127", "D 128", "D 254", "D 255", "D 256", "D 257", "D 1000", "D 65536",
+    "D 4294967295", "D 4294967296", "D 99999999999999999999", "D -1", "D 1.5", "D", "O 0", "O 177", "O 200",
+    "O 377", "O 400", "O 777", "O 37777777777", "O 40000000000", "O 777777777777777777777777", "O 8", "O 9",
+    "H 0", "H 7F", "H 80", "H FF", "H 100", "H FFFFFFFF", "H 100000000", "H FFFFFFFFFFFFFFFFFF", "H G", "H ff",
+    "R 0", "R 0.0", "R -0.0", "R 1.0", "R 0.5", "R 0.9999999", "R 1.0000001", "R 15.9999999", "R 16.0",
+    "R 2047.9999999", "R 2048.0", "R 2048", "R -2047.9999999", "R -2048.0", "R 99999999999.0", "R -99999999999.0",
+    "R 0.00000000000000000001", "R 1.99999999999999999999999999", "R", "R .", "R -", "R +", "R +1.0", "R --1.0",
+    "R -+1.0", "R 1e10", "R 1.", "R .5", "R 1.0.0", "C A", "C a", "C 0", "C (", "C )", "C", "C AB", "C ~",
+    "F MRR", "F BIE", "F LIC", "F XXX", "F", "F M", "TRUE", "FALSE", "T", "F", "MAYBE", "X 12", "12", "-",
+];
+
+fn pick_nonws(toks: &[String], rng: &mut Rng) -> Option<usize> {
+    if toks.is_empty() {
+        return None;
+    }
+    for _ in 0..20 {
+        let i = rng.below(toks.len() as u64) as usize;
+        if !is_ws(&toks[i]) {
+            return Some(i);
+        }
+    }
     None
+}
+
+fn pick_word(toks: &[String], rng: &mut Rng) -> Option<usize> {
+    if toks.is_empty() {
+        return None;
+    }
+    for _ in 0..30 {
+        let i = rng.below(toks.len() as u64) as usize;
+        if !is_ws(&toks[i]) && toks[i] != "(" && toks[i] != ")" {
+            return Some(i);
+        }
+    }
+    None
+}
+
+/// index range [i, j] of a balanced group starting at an opening parenthesis
+fn group_at(toks: &[String], i: usize) -> Option<(usize, usize)> {
+    if toks.get(i).map(|s| s.as_str()) != Some("(") {
+        return None;
+    }
+    let mut depth = 0i64;
+    for (j, t) in toks.iter().enumerate().skip(i) {
+        if t == "(" {
+            depth += 1;
+        } else if t == ")" {
+            depth -= 1;
+            if depth == 0 {
+                return Some((i, j));
+            }
+        }
+    }
+    None
+}
+
+fn char_spec(rng: &mut Rng) -> String {
+    match rng.below(6) {
+        0 => format!("O {:o}", rng.below(256)),
+        1 => format!("D {}", rng.below(256)),
+        2 => format!("H {:X}", rng.below(256)),
+        3 => format!("C {}", (b'!' + rng.below(94) as u8) as char),
+        4 => "O 0".to_string(),
+        _ => "O 377".to_string(),
+    }
+}
+
+fn lig_row(rng: &mut Rng) -> String {
+    match rng.below(6) {
+        0 => format!("(KRN {} R {}.{})", char_spec(rng), rng.range(-3, 3), rng.below(1000)),
+        1 => format!("({} {} {})", rng.pick(&["LIG", "/LIG", "/LIG>", "LIG/", "LIG/>", "/LIG/", "/LIG/>", "/LIG/>>"]), char_spec(rng), char_spec(rng)),
+        2 => "(STOP)".to_string(),
+        3 => format!("(SKIP D {})", rng.pick(&[0u32, 1, 2, 5, 127, 128, 255, 256])),
+        4 => format!("(LABEL {})", char_spec(rng)),
+        _ => "(LABEL BOUNDARYCHAR)".to_string(),
+    }
+}
+
+fn ligtable_snippet(rng: &mut Rng, first_label: &str) -> String {
+    let mut s = format!("(LIGTABLE\n   (LABEL {first_label})\n");
+    for _ in 0..1 + rng.below(5) {
+        s.push_str("   ");
+        s.push_str(&lig_row(rng));
+        s.push('\n');
+    }
+    s.push_str("   )\n");
+    s
+}
+
+fn nest_depth(rng: &mut Rng, thorough_scale: bool) -> usize {
+    // (every unbalanced parenthesis is a warning, and the tools render each warning with a scan
+    // of the source: the cost is quadratic, so the deep cases are rare)
+    let small = [1usize, 2, 3, 10, 30, 100, 300];
+    let medium = [1000usize, 3000];
+    let big = [10_000usize, 50_000, 100_000, 200_000];
+    if thorough_scale && rng.chance(1, 40) {
+        *rng.pick(&big)
+    } else if rng.chance(1, 8) {
+        *rng.pick(&medium)
+    } else {
+        *rng.pick(&small)
+    }
+}
+
+fn mutate_pl(src: &str, class: &str, param: u64, deep: bool) -> String {
+    let mut rng = Rng::new(param);
+    let mut toks = tokenize(src);
+    let classes = ["token", "paren", "number", "label", "nest", "char", "dup", "trunc"];
+    let rounds = if class == "mix" { 2 + rng.below(3) as usize } else { 1 };
+    for _ in 0..rounds {
+        let c: &str = if class == "mix" { *rng.pick(&classes[..]) } else { class };
+        match c {
+            "identity" => {}
+            "token" => {
+                for _ in 0..1 + rng.below(3) {
+                    match rng.below(5) {
+                        0 => {
+                            if let Some(i) = pick_nonws(&toks, &mut rng) {
+                                toks.remove(i);
+                            }
+                        }
+                        1 => {
+                            if let Some(i) = pick_nonws(&toks, &mut rng) {
+                                let t = toks[i].clone();
+                                toks.insert(i, " ".into());
+                                toks.insert(i, t);
+                            }
+                        }
+                        2 => {
+                            if let (Some(i), Some(j)) = (pick_nonws(&toks, &mut rng), pick_nonws(&toks, &mut rng)) {
+                                toks.swap(i, j);
+                            }
+                        }
+                        3 => {
+                            if let Some(i) = pick_word(&toks, &mut rng) {
+                                toks[i] = rng.pick(VOCAB).to_string();
+                            }
+                        }
+                        _ => {
+                            if let (Some(i), Some(j)) = (pick_word(&toks, &mut rng), pick_word(&toks, &mut rng)) {
+                                toks[i] = toks[j].clone();
+                            }
+                        }
+                    }
+                }
+            }
+            "paren" => {
+                for _ in 0..1 + rng.below(3) {
+                    match rng.below(4) {
+                        0 => {
+                            let i = rng.below(toks.len() as u64 + 1) as usize;
+                            toks.insert(i, "(".into());
+                        }
+                        1 => {
+                            let i = rng.below(toks.len() as u64 + 1) as usize;
+                            toks.insert(i, ")".into());
+                        }
+                        _ => {
+                            let ps: Vec<usize> = (0..toks.len()).filter(|&i| toks[i] == "(" || toks[i] == ")").collect();
+                            if !ps.is_empty() {
+                                let i = *rng.pick(&ps);
+                                toks.remove(i);
+                            }
+                        }
+                    }
+                }
+            }
+            "number" => {
+                for _ in 0..1 + rng.below(3) {
+                    // replace "<prefix> <digits>" (two word tokens separated by white space) or one word
+                    let idx: Vec<usize> = (0..toks.len().saturating_sub(2))
+                        .filter(|&i| matches!(toks[i].as_str(), "D" | "O" | "H" | "R" | "C" | "F") && is_ws(&toks[i + 1]))
+                        .collect();
+                    if !idx.is_empty() && rng.chance(4, 5) {
+                        let i = *rng.pick(&idx);
+                        let rep = rng.pick(NUMBERS).to_string();
+                        toks[i] = rep;
+                        toks[i + 1] = " ".into();
+                        if i + 2 < toks.len() && toks[i + 2] != "(" && toks[i + 2] != ")" {
+                            toks[i + 2] = String::new();
+                        }
+                    } else if let Some(i) = pick_word(&toks, &mut rng) {
+                        toks[i] = rng.pick(NUMBERS).to_string();
+                    }
+                }
+            }
+            "label" => {
+                // LIGTABLE labels for characters that are not declared / lie below the first CHARACTER
+                let c = match rng.below(5) {
+                    0 => "O 0".to_string(),
+                    1 => "O 1".to_string(),
+                    2 => "O 377".to_string(),
+                    3 => "BOUNDARYCHAR".to_string(),
+                    _ => char_spec(&mut rng),
+                };
+                let snippet = ligtable_snippet(&mut rng, &c);
+                let lt: Vec<usize> = (0..toks.len()).filter(|&i| toks[i] == "LIGTABLE").collect();
+                if !lt.is_empty() && rng.chance(1, 2) {
+                    // add a label row inside an existing LIGTABLE
+                    let i = *rng.pick(&lt);
+                    let row = format!(" (LABEL {c}) {} ", lig_row(&mut rng));
+                    toks.insert(i + 1, row);
+                } else if rng.chance(1, 2) {
+                    toks.insert(0, snippet);
+                } else {
+                    toks.push(snippet);
+                }
+            }
+            "nest" => {
+                let n = nest_depth(&mut rng, deep);
+                let i = rng.below(toks.len() as u64 + 1) as usize;
+                let word = rng.pick(&["", "COMMENT ", "CHARACTER C A ", "LIGTABLE ", "X ", "FONTDIMEN "]);
+                let mut s = String::new();
+                for _ in 0..n {
+                    s.push('(');
+                    s.push_str(word);
+                }
+                // every unbalanced parenthesis costs one warning whose rendering scans the source:
+                // beyond a few thousand levels only (nearly) balanced nests are generated
+                let closers = match rng.below(3) {
+                    _ if n > 3000 => n - rng.below(3) as usize,
+                    0 => 0,
+                    1 => n,
+                    _ => n / 2,
+                };
+                s.push_str(&")".repeat(closers));
+                toks.insert(i, s);
+            }
+            "char" => {
+                let weird = ['\u{e9}', '\t', '\r', '\u{0}', '\u{1F600}', '\u{7f}', '\u{a0}', '\u{2028}', '~', '\\', '"'];
+                for _ in 0..1 + rng.below(3) {
+                    if let Some(i) = pick_nonws(&toks, &mut rng) {
+                        let ch = *rng.pick(&weird);
+                        let t: Vec<char> = toks[i].chars().collect();
+                        let at = rng.below(t.len() as u64 + 1) as usize;
+                        let mut s: String = t[..at].iter().collect();
+                        s.push(ch);
+                        s.extend(t[at..].iter());
+                        toks[i] = s;
+                    }
+                }
+            }
+            "dup" => {
+                // repeat a whole balanced group many times (limits: 256 characters, table sizes)
+                let opens: Vec<usize> = (0..toks.len()).filter(|&i| toks[i] == "(").collect();
+                if !opens.is_empty() {
+                    let i = *rng.pick(&opens);
+                    if let Some((a, z)) = group_at(&toks, i) {
+                        let text: String = toks[a..=z].concat();
+                        if text.len() < 4000 {
+                            let times = *rng.pick(&[2usize, 3, 17, 70, 260, 600]);
+                            let times = if deep && rng.chance(1, 10) { 3_000 } else { times };
+                            // (a warning per copy, each rendered with a scan of the source: keep the
+                            // product of copies and size bounded)
+                            let cap = 200_000 / text.len().max(1);
+                            let rep = format!("{text}\n").repeat(times.min(cap).max(1));
+                            toks.insert(a, rep);
+                        }
+                    }
+                }
+            }
+            _ => {
+                // "trunc": cut the text at a token boundary (or inside a token)
+                if !toks.is_empty() {
+                    let i = rng.below(toks.len() as u64) as usize;
+                    toks.truncate(i + 1);
+                    if rng.chance(1, 3) {
+                        let t: Vec<char> = toks[i].chars().collect();
+                        let at = rng.below(t.len() as u64 + 1) as usize;
+                        toks[i] = t[..at].iter().collect();
+                    }
+                }
+            }
+        }
+    }
+    toks.concat()
+}
+
+// ------------------------------------------------------------------------------------------
+// synthesised property lists
+// ------------------------------------------------------------------------------------------
+fn real(rng: &mut Rng) -> String {
+    match rng.below(10) {
+        0 => "R 0.0".into(),
+        1 => "R 2047.9999999".into(),
+        2 => "R -2047.9999999".into(),
+        3 => "R 2048.0".into(),
+        4 => format!("R {}.{:06}", rng.range(-16, 16), rng.below(1_000_000)),
+        5 => format!("R {}.{}", rng.range(-2047, 2047), rng.below(10)),
+        _ => format!("R {}.{:03}", rng.range(0, 3), rng.below(1000)),
+    }
+}
+
+fn synth_pl(param: u64, deep: bool) -> String {
+    let mut rng = Rng::new(param);
+    let mut s = String::new();
+    let mut push = |s: &mut String, line: String| {
+        s.push_str(&line);
+        s.push('\n');
+    };
+    if rng.chance(1, 2) {
+        push(&mut s, format!("(FAMILY {})", "F".repeat(*rng.pick(&[0usize, 1, 19, 20, 21, 40, 300]))));
+    }
+    if rng.chance(1, 2) {
+        push(&mut s, format!("(CODINGSCHEME {})", rng.pick(&["TEX MATH SYMBOLS", "TeX math extension", "X", "", "AAAAAAAAAAAAAAAAAAAAAAAAAAAAAAAAAAAAAAAAAAAAAAAA"])));
+    }
+    if rng.chance(1, 2) {
+        push(&mut s, format!("(DESIGNSIZE {})", rng.pick(&["R 10.0", "R 0.5", "R 1.0", "R 0.9999999", "R 2047.9999999", "R -1.0", "R 0.0", "D 10"])));
+    }
+    if rng.chance(1, 3) {
+        push(&mut s, format!("(DESIGNUNITS {})", rng.pick(&["R 1.0", "R 1000.0", "R 0.0", "R -1.0", "R 0.0000001", "R 2047.0", "R 18.0"])));
+    }
+    if rng.chance(1, 3) {
+        push(&mut s, format!("(CHECKSUM O {:o})", rng.next() & 0xFFFF_FFFF));
+    }
+    if rng.chance(1, 3) {
+        push(&mut s, format!("(FACE {})", rng.pick(&["F MRR", "F BIE", "O 22", "D 255", "D 256", "F LLL"])));
+    }
+    if rng.chance(1, 3) {
+        push(&mut s, format!("(SEVENBITSAFEFLAG {})", rng.pick(&["TRUE", "FALSE", "T", "X"])));
+    }
+    for _ in 0..rng.below(3) {
+        push(&mut s, format!("(HEADER D {} O {:o})", rng.pick(&[0u32, 17, 18, 19, 30, 100, 254, 255, 256, 1000]), rng.below(1 << 32)));
+    }
+    if rng.chance(1, 3) {
+        push(&mut s, format!("(BOUNDARYCHAR {})", char_spec(&mut rng)));
+    }
+    if rng.chance(1, 2) {
+        s.push_str("(FONTDIMEN\n");
+        for _ in 0..rng.below(6) {
+            match rng.below(3) {
+                0 => push(&mut s, format!("   ({} {})", rng.pick(&["SLANT", "SPACE", "STRETCH", "SHRINK", "XHEIGHT", "QUAD", "EXTRASPACE", "NUM1", "BIGOPSPACING5", "DEFAULTRULETHICKNESS"]), real(&mut rng))),
+                _ => push(&mut s, format!("   (PARAMETER D {} {})", rng.pick(&[0u32, 1, 2, 7, 8, 22, 30, 100, 253, 254, 255, 256, 300]), real(&mut rng))),
+            }
+        }
+        s.push_str("   )\n");
+    }
+    // characters
+    let nchars = *rng.pick(&[0usize, 1, 2, 3, 5, 17, 64, 128, 256]);
+    let first = if nchars >= 256 { 0 } else { rng.below((256 - nchars) as u64 + 1) as usize };
+    let pool = *rng.pick(&[1usize, 2, 15, 16, 17, 63, 64, 65, 255, 256, 300]);
+    let vals: Vec<String> = (0..pool).map(|i| format!("R {}.{:04}", i / 7, (i * 1237 + rng.below(3) as usize) % 10000)).collect();
+    let tagmode = rng.below(6);
+    // half of the lists give character i the i-th value of the pool, so that the number of distinct
+    // widths/heights/depths/italics is exactly min(#characters, pool): the table limits 255/15/15/63
+    // are then hit exactly and exceeded by one
+    let cycle = rng.chance(1, 2);
+    let mut declared: Vec<usize> = vec![];
+    for i in 0..nchars {
+        let c = if rng.chance(1, 12) { rng.below(256) as usize } else { first + i };
+        declared.push(c);
+        s.push_str(&format!("(CHARACTER O {:o}\n", c));
+        if cycle || rng.chance(9, 10) {
+            let v = if cycle { &vals[i % vals.len()] } else { rng.pick(&vals) };
+            push(&mut s, format!("   (CHARWD {})", v));
+        }
+        if cycle || rng.chance(2, 3) {
+            let v = if cycle { &vals[i % vals.len()] } else { rng.pick(&vals) };
+            push(&mut s, format!("   (CHARHT {})", v));
+        }
+        if cycle || rng.chance(1, 2) {
+            let v = if cycle { &vals[i % vals.len()] } else { rng.pick(&vals) };
+            push(&mut s, format!("   (CHARDP {})", v));
+        }
+        if cycle || rng.chance(1, 2) {
+            let v = if cycle { &vals[i % vals.len()] } else { rng.pick(&vals) };
+            push(&mut s, format!("   (CHARIC {})", v));
+        }
+        match tagmode {
+            0 if rng.chance(1, 2) => {
+                // next-larger chains, loops and references to missing characters
+                let target = match rng.below(4) {
+                    0 => c,
+                    1 => (c + 1) % 256,
+                    2 => first,
+                    _ => rng.below(256) as usize,
+                };
+                push(&mut s, format!("   (NEXTLARGER O {:o})", target));
+            }
+            1 | 2 => {
+                if tagmode == 1 || rng.chance(1, 3) {
+                    s.push_str("   (VARCHAR\n");
+                    for part in ["TOP", "MID", "BOT", "REP"] {
+                        if rng.chance(2, 3) {
+                            push(&mut s, format!("      ({part} {})", char_spec(&mut rng)));
+                        }
+                    }
+                    s.push_str("      )\n");
+                }
+            }
+            _ => {}
+        }
+        s.push_str("   )\n");
+    }
+    // lig/kern programs
+    if rng.chance(3, 4) {
+        let tables = 1 + rng.below(2);
+        for _ in 0..tables {
+            s.push_str("(LIGTABLE\n");
+            let rows = if deep && rng.chance(1, 400) {
+                *rng.pick(&[32_000usize, 32_510, 32_511, 33_000, 70_000])
+            } else {
+                *rng.pick(&[0usize, 1, 2, 5, 20, 100, 300, 700])
+            };
+            for r in 0..rows {
+                let row = if rows > 1000 {
+                    // cheap rows for the huge tables
+                    format!("(KRN O {:o} R {}.{})", r % 256, r % 7, r % 1000)
+                } else if !declared.is_empty() && rng.chance(1, 4) {
+                    format!("(LABEL O {:o})", rng.pick(&declared))
+                } else if rng.chance(1, 6) {
+                    format!("(KRN {} R {}.{:05})", char_spec(&mut rng), rng.range(-2, 2), rng.below(100000))
+                } else {
+                    lig_row(&mut rng)
+                };
+                s.push_str("   ");
+                s.push_str(&row);
+                s.push('\n');
+            }
+            s.push_str("   )\n");
+        }
+    }
+    if rng.chance(1, 8) {
+        s = mutate_pl(&s, "mix", rng.next(), false);
+    }
+    s
+}
+
+// ------------------------------------------------------------------------------------------
+// c10-pipe runner
+// ------------------------------------------------------------------------------------------
+struct Shared {
+    out: Mutex<Out>,
+    started_ms: AtomicU64,
+    job: AtomicU64,
+}
+
+fn now_ms() -> u64 {
+    std::time::SystemTime::now()
+        .duration_since(std::time::UNIX_EPOCH)
+        .unwrap()
+        .as_millis() as u64
+}
+
+fn emit(sh: &Shared, v: Value, flush: bool) {
+    let mut o = sh.out.lock().unwrap();
+    o.line(&v);
+    if flush {
+        o.flush();
+    }
+}
+
+/// One call of tfm_to_pl as a pair of events.
+fn traced_tfm_to_pl(sh: &Shared, bytes: &[u8], src: &str, mode: u8) {
+    emit(sh, json!({"ev":"call","f":"tfm_to_pl","len":bytes.len(),"hdr":hdr_of(bytes),"src":src}), true);
+    let t = std::time::Instant::now();
+    match catch(|| run_tfm_to_pl(bytes, mode)) {
+        Ok(o) => emit(
+            sh,
+            json!({"ev":"ret","f":"tfm_to_pl","out":o.kind,"junk":o.junk,"nwarn":o.nwarn,"pl_len":o.pl_len,"us":t.elapsed().as_micros() as u64}),
+            false,
+        ),
+        Err((file, line, msg)) => emit(sh, json!({"ev":"panic","f":"tfm_to_pl","msg":msg,"file":file,"line":line,"src":src}), false),
+    }
+}
+
+fn traced_pl_job(sh: &Shared, text: &str, mode: u8) {
+    emit(sh, json!({"ev":"call","f":"pl_to_tfm","n":text.len()}), true);
+    let t = std::time::Instant::now();
+    match catch(|| run_pl_to_tfm(text)) {
+        Ok((bytes, nwarn)) => {
+            emit(sh, json!({"ev":"ret","f":"pl_to_tfm","len":bytes.len(),"hdr":hdr_of(&bytes),"nwarn":nwarn,"us":t.elapsed().as_micros() as u64}), false);
+            traced_tfm_to_pl(sh, &bytes, "output", mode);
+        }
+        Err((file, line, msg)) => emit(sh, json!({"ev":"panic","f":"pl_to_tfm","msg":msg,"file":file,"line":line}), false),
+    }
+}
+
+/// Run one given input (kind=tfm|pl file=PATH) through the converters, as one recorded run.
+fn one_file(args: &Args) -> i32 {
+    install_hook();
+    let kind = args.req("kind").to_string();
+    let path = args.req("file").to_string();
+    let mode: u8 = args.num("mode", 0);
+    let sh = Arc::new(Shared {
+        out: Mutex::new(Out::new(args.str("out"))),
+        started_ms: AtomicU64::new(0),
+        job: AtomicU64::new(0),
+    });
+    let sh2 = sh.clone();
+    let worker = std::thread::Builder::new()
+        .stack_size(8 << 20)
+        .spawn(move || {
+            let sh = sh2;
+            emit(&sh, json!({"ev":"reset","job":0,"kind":kind,"src":path,"class":"file","param":"0"}), false);
+            if kind == "tfm" {
+                let bytes = std::fs::read(&path).expect("read input");
+                traced_tfm_to_pl(&sh, &bytes, "input", mode);
+            } else {
+                let text = std::fs::read_to_string(&path).expect("read input");
+                traced_pl_job(&sh, &text, mode);
+            }
+        })
+        .unwrap();
+    let ok = worker.join().is_ok();
+    sh.out.lock().unwrap().flush();
+    if ok {
+        0
+    } else {
+        4
+    }
+}
+
+fn pipe(args: &Args) -> i32 {
+    install_hook();
+    let corpus = load_corpus(args.req("corpus"));
+    let seed: u64 = args.num("seed", 1);
+    let thorough = args.str("tier") == Some("thorough");
+    let scale: f64 = args.num("scale", 1.0);
+    let shard: usize = args.num("shard", 0);
+    let nshards: usize = args.num("nshards", 1);
+    let from: usize = args.num("from", 0);
+    let only: i64 = args.num("only", -1);
+    let timeout_ms: u64 = args.num("timeout_ms", 300_000);
+    let dump = args.str("dump").map(|s| s.to_string());
+    let jobs = plan(&corpus, thorough, seed, scale);
+    if args.str("count").is_some() {
+        println!("{}", jobs.len());
+        return 0;
+    }
+    let sh = Arc::new(Shared {
+        out: Mutex::new(Out::new(args.str("out"))),
+        started_ms: AtomicU64::new(0),
+        job: AtomicU64::new(0),
+    });
+    // watchdog: a call that does not return within the time limit is reported and ends the process
+    {
+        let sh = sh.clone();
+        std::thread::spawn(move || loop {
+            std::thread::sleep(std::time::Duration::from_millis(100));
+            let st = sh.started_ms.load(Ordering::SeqCst);
+            if st != 0 && now_ms().saturating_sub(st) > timeout_ms {
+                let j = sh.job.load(Ordering::SeqCst);
+                if let Ok(mut o) = sh.out.lock() {
+                    o.line(&json!({"ev":"hang","job":j,"ms":timeout_ms}));
+                    o.flush();
+                }
+                std::process::exit(3);
+            }
+        });
+    }
+    let sh2 = sh.clone();
+    // the tools run the converters on the main thread: 8 MiB of stack
+    let worker = std::thread::Builder::new()
+        .stack_size(8 << 20)
+        .spawn(move || {
+            let sh = sh2;
+            for (j, job) in jobs.iter().enumerate() {
+                if only >= 0 {
+                    if j as i64 != only {
+                        continue;
+                    }
+                } else if j < from || j % nshards != shard {
+                    continue;
+                }
+                let mode = (j % 3) as u8;
+                sh.job.store(j as u64, Ordering::SeqCst);
+                match job {
+                    JobKind::Tfm(i, class, param) => {
+                        let (name, src) = &corpus.tfms[*i];
+                        let bytes = mutate_tfm(src, class, *param);
+                        if let Some(d) = &dump {
+                            std::fs::write(d, &bytes).unwrap();
+                        }
+                        emit(&sh, json!({"ev":"reset","job":j,"kind":"tfm","src":name,"class":class,"param":param.to_string()}), false);
+                        sh.started_ms.store(now_ms(), Ordering::SeqCst);
+                        traced_tfm_to_pl(&sh, &bytes, "input", mode);
+                        sh.started_ms.store(0, Ordering::SeqCst);
+                    }
+                    JobKind::Pl(i, class, param) => {
+                        let (name, src) = &corpus.pls[*i];
+                        let text = mutate_pl(src, class, *param, thorough);
+                        if let Some(d) = &dump {
+                            std::fs::write(d, &text).unwrap();
+                        }
+                        emit(&sh, json!({"ev":"reset","job":j,"kind":"pl","src":name,"class":class,"param":param.to_string()}), false);
+                        sh.started_ms.store(now_ms(), Ordering::SeqCst);
+                        traced_pl_job(&sh, &text, mode);
+                        sh.started_ms.store(0, Ordering::SeqCst);
+                    }
+                    JobKind::Synth(param) => {
+                        let text = synth_pl(*param, thorough);
+                        if let Some(d) = &dump {
+                            std::fs::write(d, &text).unwrap();
+                        }
+                        emit(&sh, json!({"ev":"reset","job":j,"kind":"pl","src":"synth","class":"synth","param":param.to_string()}), false);
+                        sh.started_ms.store(now_ms(), Ordering::SeqCst);
+                        traced_pl_job(&sh, &text, mode);
+                        sh.started_ms.store(0, Ordering::SeqCst);
+                    }
+                }
+            }
+        })
+        .unwrap();
+    let ok = worker.join().is_ok();
+    sh.out.lock().unwrap().flush();
+    if ok {
+        0
+    } else {
+        4
+    }
 }
